@@ -107,3 +107,11 @@ package dns
 //@ schema TA 32768 KeyTag:u16 Algorithm:u8 DigestType:u8 Digest:hex
 //@ schema DLV 32769 =DS
 //@ schema RFC3597 0 Rdata:hex
+
+// Presentation format: String() prints and parse() stores a record's fields in the order of the wire layout
+// above without the derived length octets, except where the RFC's text format orders them differently:
+// RFC 1876 section 3: "d1 [m1 [s1]] {N|S} d2 [m2 [s2]] {E|W} alt[m] [siz[m] [hp[m] [vp[m]]]]" (VERSION is not written)
+//@ textorder LOC Latitude Longitude Altitude Size HorizPre VertPre
+// RFC 2930 defines no presentation format for the meta record TKEY (the parser reads a private subset of what
+// String() prints)
+//@ notext TKEY
